@@ -93,11 +93,12 @@ HASH_ITER_TY = re.compile(r'std::collections::hash_map::(Iter|IterMut|IntoIter|K
 KEYS_ONLY_TY = re.compile(r'hash_map::(Keys|IntoKeys)\b|hash_set::')
 
 
-def _vec_sorted_later(facts, b, t, over_keys):
-    """collect() into a named Vec that is then sorted in place by a key covering the entry key"""
-    if t.dest is None or t.dest.proj:
-        return None
-    name = b.var_name(t.dest.local)
+def _vec_sorted_later(facts, b, t, over_keys, name=None):
+    """collect() into a named Vec (or extend of the named Vec `name`) that is then sorted in place by a key covering the entry key"""
+    if name is None:
+        if t.dest is None or t.dest.proj:
+            return None
+        name = b.var_name(t.dest.local)
     if not name:
         return None
     for u in b.calls(r'slice::sort(_unstable)?(_by|_by_key|_by_cached_key)?$'):
@@ -181,7 +182,12 @@ def scan(facts, bodies):
                 if re.search(r'HashMap|HashSet|BTreeMap|BTreeSet', rty):
                     add('insensitive', 'extends a map/set')
                 else:
-                    add('SENSITIVE', 'extends the ordered container %s in hash order' % rty[:60])
+                    rv = core(sym(b, t.args[0]))
+                    later = _vec_sorted_later(facts, b, t, over_keys, rv[1] if rv[0] == 'var' and len(rv) > 2 else '') if rv[0] == 'var' else None
+                    if later:
+                        add('sanitized', 'extends a Vec that is sorted by the entry key before use')
+                    else:
+                        add('SENSITIVE', 'extends the ordered container %s in hash order' % rty[:60])
                 continue
             if ls == 'next':
                 loop = cfg.innermost_loop(b, t.bb)
